@@ -303,20 +303,63 @@ Proof.
   - exists b, BS. split; [reflexivity|]. split; [assumption|]. split; [assumption|]. split; [assumption|]. split; [lia|reflexivity].
 Qed.
 
+(* ---- the width of the packed samples ---- *)
+
+Ltac inv_bind H :=
+  match type of H with
+  | bind ?e _ = Ok _ => let E := fresh "E" in destruct e eqn:E; cbn [bind] in H; [|discriminate H|discriminate H]
+  end.
+
+Lemma iv_push_width v x v' : iv_push v x = Ok v' -> iwidth v' = iwidth v.
+Proof. unfold iv_push. intros H. inv_bind H. inversion H; subst. reflexivity. Qed.
+
+Lemma push_samples_width : forall l v v', push_samples v l = Ok v' -> iwidth v' = iwidth v.
+Proof.
+  induction l as [|[o t] l IH]; intros v v' H; cbn [push_samples] in H; [inversion H; subst; reflexivity|].
+  inv_bind H. inv_bind H. rewrite (IH _ _ H), (iv_push_width _ _ _ E0), (iv_push_width _ _ _ E). reflexivity.
+Qed.
+
+(* `IntVector::with_capacity(2 * blocks, bit_len(max_value))`: the width From chooses, read off the definition *)
+Lemma rl_from_width m b v : snd (b_run b) = 0 -> rl_from m b = Ok v ->
+  iwidth (rl_samples v) = bit_len (snd (last (b_samples b) (0, 0))).
+Proof.
+  intros H0 H. unfold rl_from in H. rewrite (flush_noop m b H0) in H. cbn [bind] in H.
+  inv_bind H. inv_bind H. inv_bind H. inv_bind H. inv_bind H. inversion H; subst. cbn [rl_samples].
+  rewrite (push_samples_width _ _ _ E3).
+  unfold iv_with_capacity in E2. destruct (width_ok (bit_len (snd (last (b_samples b) (0, 0))))); [|discriminate].
+  cbn [unwrap_opt] in E2. inversion E2; subst. reflexivity.
+Qed.
+
+Definition samples_width (v : rlvec) (BS : list (list run)) : Prop :=
+  iwidth (rl_samples v) = bit_len (last (map ab_tail (annot 0 0 BS)) 0).
+
+Lemma rl_from_flushed_w m b BS L :
+  SInv b BS -> snd (b_run b) = 0 -> b_ones b = rones (concat BS) -> b_len b = L ->
+  b_tail b <= L -> L < 2 ^ 64 -> lenN (concat BS) < 2 ^ 56 ->
+  exists v, rl_from m b = Ok v /\ rl_ok v BS L /\ samples_width v BS.
+Proof.
+  intros HS Hr0 Hones HlenL HtL HL Hcnt.
+  destruct (rl_from_flushed m b BS L HS Hr0 Hones HlenL HtL HL Hcnt) as (v & Hv & Hok).
+  exists v. split; [exact Hv|]. split; [exact Hok|].
+  unfold samples_width. rewrite (rl_from_width m b v Hr0 Hv).
+  destruct HS as (_ & _ & _ & _ & Hsam & _). rewrite Hsam.
+  exact (f_equal bit_len (last_pair_samples (annot 0 0 BS) (0, 0, []))).
+Qed.
+
 Lemma rl_from_spec_g m b BS L :
   SInv b BS -> PInv b BS -> Gr BS -> b_len b = L ->
   lenN (concat BS ++ (if snd (b_run b) =? 0 then [] else [b_run b])) < 2 ^ 56 ->
-  exists v BS', rl_from m b = Ok v /\ rl_ok v BS' L /\ Gr BS' /\
+  exists v BS', rl_from m b = Ok v /\ rl_ok v BS' L /\ Gr BS' /\ samples_width v BS' /\
     concat BS' = concat BS ++ (if snd (b_run b) =? 0 then [] else [b_run b]).
 Proof.
   intros HS HP HG HL Hcnt. pose proof HP as (Hones & Hrun & Hlen & Htr & Hgap).
   destruct (N.eqb_spec (snd (b_run b)) 0) as [Hz|Hnz].
-  - rewrite app_nil_r in Hcnt. destruct (rl_from_flushed m b BS L HS Hz) as (v & Hv & Hok); try lia.
+  - rewrite app_nil_r in Hcnt. destruct (rl_from_flushed_w m b BS L HS Hz) as (v & Hv & Hok & Hw); try lia.
     exists v, BS. rewrite app_nil_r. auto.
   - destruct (flush_spec_g m b BS HS HP HG Hnz) as (b1 & BS1 & Hf & HG1 & HS1 & Hc & Hl1 & Ho1 & Hr1).
     rewrite (rl_from_after_flush m b b1 Hf) by (rewrite Hr1; reflexivity).
     pose proof HS1 as (_ & _ & _ & Htail1 & _).
-    destruct (rl_from_flushed m b1 BS1 L HS1) as (v & Hv & Hok); try lia.
+    destruct (rl_from_flushed_w m b1 BS1 L HS1) as (v & Hv & Hok & Hw); try lia.
     + rewrite Hr1. reflexivity.
     + rewrite Ho1, Hones, Hc, rones_app. cbn [rones]. lia.
     + rewrite Htail1, Hc, runs_end_from_app. cbn [runs_end_from]. lia.
@@ -327,7 +370,7 @@ Qed.
 Theorem rl_build_g m R L :
   runs_srt 0 R -> runs_end_from 0 R <= L -> L < 2 ^ 64 -> lenN R < 2 ^ 56 ->
   exists v BS, rl_build m (build_ops R L) = Ok (v, all_true R ++ [true]) /\ rl_ok v BS L /\ Gr BS /\
-               concat BS = maximal R.
+               samples_width v BS /\ concat BS = maximal R.
 Proof.
   intros Hsrt Hend HL Hcnt. unfold rl_build, rlb_new, build_ops.
   destruct (iv_rep_new 4 ltac:(lia)) as (Hnew & _). change rl_CODE_SIZE with 4. rewrite Hnew.
@@ -358,8 +401,8 @@ Proof.
   cbn [rlb_run]. rewrite Hsl. cbn [bind].
   assert (Hmax : lenN (maximal R) <= lenN R).
   { destruct R as [|r rest]; [cbn [maximal]; lia|]. cbn [maximal]. rewrite lenN_cons. apply maximal_from_len. }
-  destruct (rl_from_spec_g m b2 BS2 L HS2 HP2 HG2 Hl2) as (v & BS3 & Hv & Hok & HG3 & Hc3).
+  destruct (rl_from_spec_g m b2 BS2 L HS2 HP2 HG2 Hl2) as (v & BS3 & Hv & Hok & HG3 & Hw3 & Hc3).
   { rewrite Hc2, Hc1. lia. }
   rewrite Hv. cbn [bind]. exists v, BS3. split; [reflexivity|]. split; [assumption|]. split; [assumption|].
-  rewrite Hc3, Hc2, Hc1. reflexivity.
+  split; [assumption|]. rewrite Hc3, Hc2, Hc1. reflexivity.
 Qed.
